@@ -18,6 +18,8 @@ from __future__ import annotations
 
 import json
 import math
+
+import numpy as np
 import warnings
 from pathlib import Path
 
@@ -108,6 +110,58 @@ def query_devs(gt, wps, c, o, start):
         if d > 1e-6:
             devs.append(('azimuth-direction', f'{what}: azimuth {p.azimuth}; direction to the next waypoint {az_here % 360.0}'))
     return devs
+
+
+WHOLE_TRACKS = [[(0, 0), (3, 4), (10, 4)], [(-75, 40), (-70, 45)], [(179, 10), (-179, 12), (-170, 12)], [(10, 0), (10, 7)], [(2, 48), (2, 49), (3, 49), (3, 48)]]
+
+
+def run_whole(job):
+    """GroundTrack.tla CoordForms: way points at whole degrees, the coordinates given as Python ints or as floats."""
+    warnings.simplefilter('ignore')
+    ti, form = job
+    try:
+        from AEIC.trajectories.ground_track import GroundTrack
+        from AEIC.types import Location
+        from AEIC.utils import GEOD
+
+        conv = {'whole': int, 'float': float, 'numpy_whole': np.int64}[form]
+        wps = WHOLE_TRACKS[ti]
+        what = f'track through {wps} (coordinates given as {form})'
+        try:
+            if len(wps) == 2 and ti % 2 == 1:
+                gt = GroundTrack.great_circle(Location(longitude=conv(wps[0][0]), latitude=conv(wps[0][1])), Location(longitude=conv(wps[1][0]), latitude=conv(wps[1][1])))
+            else:
+                gt = GroundTrack([Location(longitude=conv(a), latitude=conv(b)) for a, b in wps])
+        except Exception as e:
+            return [(f'whole-degree:raised-{type(e).__name__}', f'{what}: raised {type(e).__name__}: {e}')]
+        legs = [GEOD.inv(a[0], a[1], b[0], b[1]) for a, b in zip(wps, wps[1:])]
+        cum = [0.0]
+        for _, _, d in legs:
+            cum.append(cum[-1] + d)
+        devs = []
+        if abs(float(gt.total_distance) - cum[-1]) > 1e-3:
+            devs.append(('whole-degree:total-distance', f'{what}: total_distance = {gt.total_distance}; sum of the leg geodesics = {cum[-1]}'))
+        for i in range(len(wps)):
+            if abs(float(gt.waypoint_distance(i)) - cum[i]) > 1e-3:
+                devs.append(('whole-degree:waypoint-distance', f'{what}: waypoint_distance({i}) = {gt.waypoint_distance(i)}; specification: {cum[i]}'))
+                break
+        for k, (az, _, d) in enumerate(legs):
+            for frac in (0.5, 0.999):
+                try:
+                    p = gt.location(cum[k] + frac * d)
+                except Exception as e:
+                    devs.append((f'whole-degree:location-raised-{type(e).__name__}', f'{what}: location({cum[k] + frac * d}) raised {type(e).__name__}: {e}'))
+                    break
+                elon, elat, _ = GEOD.fwd(wps[k][0], wps[k][1], az, frac * d)
+                _, _, miss = GEOD.inv(elon, elat, p.location.longitude, p.location.latitude)
+                if not (math.isfinite(miss) and miss <= 1.0):
+                    devs.append(('whole-degree:position', f'{what}: location at {frac} of leg {k + 1} is {miss:.1f} m from the geodesic point ({elon:.6f}, {elat:.6f})'))
+                    break
+        return devs
+    except Exception as e:
+        import traceback
+
+        return [('machinery', f'{type(e).__name__}: {e}\n{traceback.format_exc()}')]
 
 
 def run_case(job):
@@ -265,6 +319,9 @@ def run(ctx: Ctx):
         if 'history' in c:
             for key, desc in run_history((c['history'], c['start'])):
                 ctx.violation(key, desc, c)
+        if 'whole' in c:
+            for key, desc in run_whole(tuple(c['whole'])):
+                ctx.violation(key, desc, c)
         if 'pair' in c:
             for key, desc, pair in mission_distances()[0]:
                 if list(pair) == list(c['pair']):
@@ -286,6 +343,14 @@ def run(ctx: Ctx):
             if key not in seen:
                 seen.add(key)
                 ctx.violation(key, desc, {'case': case, 'start': si})
+    # GroundTrack.tla CoordForms: whole-degree way points given as ints / numpy ints / floats
+    wjobs = [(ti, form) for ti in range(len(WHOLE_TRACKS)) for form in ('float', 'whole', 'numpy_whole')]
+    for job, devs in zip(wjobs, pmap(run_whole, wjobs)):
+        ctx.case_done(('whole', job), nontrivial=job[1] != 'float')
+        for key, desc in devs:
+            if key == 'machinery':
+                raise MachineryError('ground-track worker failed: ' + desc)
+            ctx.violation(key, desc, {'whole': list(job)})
     # histories on one object: exhaustive pairs of location queries on the multi-leg tracks, random walks of 8 mixed queries
     tlc.check(ctx, 'geo/GroundTrackHist', 'geo/MC_GroundTrackHist.cfg', workers=8)
     neg = tlc.run('geo/GroundTrackHist', 'geo/MC_GroundTrackHist.cfg', sub={'Design = "stateless"': 'Design = "resume"'})
